@@ -62,6 +62,8 @@ type scenario struct {
 	bad      map[string]string // categories of the unencodable records handed over → kind ("" = zero value / nil pack)
 	badNotes []string          // kind@id of the good record it precedes (part of the case hash)
 	excused  map[string]bool   // records of a SendDirect call that panicked (reported there, once, with the call)
+
+	views []packView // filled by evaluate: which records each hand-over carried (lull scenarios read it)
 }
 
 func newScenario(c *vlib.Ctx, section, path string, mode byte) *scenario {
@@ -650,6 +652,7 @@ func (sc *scenario) evaluate() {
 	for _, f := range fails {
 		f()
 	}
+	sc.views = views
 	c.Count("packs", int64(len(sc.hs)))
 	c.Count("scenarios/"+sc.Path+"/"+string(sc.Mode), 1)
 }
